@@ -214,6 +214,12 @@ fn c12(c: &mut Check) {
         if cv(v, "pause_started_concurrent_marking") > 0 {
             l.push("concurrent_marking_started");
         }
+        if cv(v, "hide_during_marking") > 0 {
+            l.push("hide_during_marking");
+        }
+        if cv(v, "pause_started_concurrent_marking") >= 2 {
+            l.push("ge2_marking_cycles");
+        }
         (nt, l)
     });
     let _ = CONC;
@@ -245,7 +251,11 @@ const IMMIX_PLANS: [&str; 4] = ["Immix", "GenImmix", "StickyImmix", "ConcurrentI
 fn c34(c: &mut Check) {
     let n = c.tier.pick(500, 20000);
     run_e1(c, "line-reuse", n, "C34", &["C02"], || gen::c34_case(), |v| {
-        (cv(v, "c34_straddling_object_next_to_holes") > 0 && cv(v, "gc") >= 3, labels_common(v))
+        let mut l = labels_common(v);
+        if cv(v, "gc") >= 128 {
+            l.push("ge128_gcs_line_state_wrapped");
+        }
+        (cv(v, "c34_straddling_object_next_to_holes") > 0 && cv(v, "gc") >= 3, l)
     });
     let _ = IMMIX_PLANS;
 }
